@@ -103,6 +103,10 @@ class R:
         return R("v", (name,))
 
     @staticmethod
+    def _arr(x):
+        return isinstance(x, np.ndarray) and x.shape != ()
+
+    @staticmethod
     def lift(x):
         if isinstance(x, R):
             return x
@@ -114,48 +118,64 @@ class R:
 
     # -- arithmetic ------------------------------------------------------------
     def __add__(self, other):
+        if R._arr(other):
+            return np.add(_obj0(self), other)
         o = R.lift(other)
         if o is None:
             return NotImplemented
         return add(self, o)
 
     def __radd__(self, other):
+        if R._arr(other):
+            return np.add(other, _obj0(self))
         o = R.lift(other)
         if o is None:
             return NotImplemented
         return add(o, self)
 
     def __sub__(self, other):
+        if R._arr(other):
+            return np.subtract(_obj0(self), other)
         o = R.lift(other)
         if o is None:
             return NotImplemented
         return add(self, neg(o))
 
     def __rsub__(self, other):
+        if R._arr(other):
+            return np.subtract(other, _obj0(self))
         o = R.lift(other)
         if o is None:
             return NotImplemented
         return add(o, neg(self))
 
     def __mul__(self, other):
+        if R._arr(other):
+            return np.multiply(_obj0(self), other)
         o = R.lift(other)
         if o is None:
             return NotImplemented
         return mul(self, o)
 
     def __rmul__(self, other):
+        if R._arr(other):
+            return np.multiply(other, _obj0(self))
         o = R.lift(other)
         if o is None:
             return NotImplemented
         return mul(o, self)
 
     def __truediv__(self, other):
+        if R._arr(other):
+            return np.true_divide(_obj0(self), other)
         o = R.lift(other)
         if o is None:
             return NotImplemented
         return mul(self, inv(o))
 
     def __rtruediv__(self, other):
+        if R._arr(other):
+            return np.true_divide(other, _obj0(self))
         o = R.lift(other)
         if o is None:
             return NotImplemented
@@ -296,6 +316,12 @@ class R:
 
     def __repr__(self):
         return show(self)
+
+
+def _obj0(x):
+    a = np.empty((), dtype=object)
+    a[()] = x
+    return a
 
 
 def _rebuild(op, args):
